@@ -51,7 +51,9 @@ def _connected_spec(rng):
         if frozenset(e) not in seen:
             seen.add(frozenset(e))
             edges.append(e)
-    return {"nodes": nodes, "edges": edges, "labels": "int"}
+    reg = nodes[:]
+    rng.shuffle(reg)  # labels are 0..N-1, but they are registered in another order
+    return {"nodes": reg, "edges": edges, "labels": "int"}
 
 
 def _connected(n, edges):
